@@ -122,6 +122,7 @@ func run(prop, tier, repo, verif string, ov map[string][]byte, f propFunc, noEvi
 		c.UseVTA()
 	}
 	meta := f(c)
+	runCopyRule(c, prop)
 	if noEvidence {
 		verifTmp, _ := os.MkdirTemp("", "verifchk-variant")
 		defer os.RemoveAll(verifTmp)
